@@ -174,6 +174,8 @@ def check_tx(res, N, exons, strand, cds, f0, a, b, cs="+"):
         cmp(res, "num_codons", case, lib.outcome(lambda: T1.cds.num_codons), len(allc), "chunk-twin-num-codons")
     for name, fn, e in (("cds_start", lambda: T1.cds_start, cb[0][0]), ("cds_end", lambda: T1.cds_end, cb[-1][1]), ("cds_size", lambda: T1.cds_size, sum(e - s for s, e in cb))):
         cmp(res, name, case, lib.outcome(fn), e, "chunk-twin-cds-bounds")
+    # the chunk-relative CDS size is the number of CDS bases the chunk holds ("can shrink if the Location is a slice")
+    cmp(res, "chunk_relative_cds_size", case, lib.outcome(lambda: T1.chunk_relative_cds_size), n_cds_inside, "chunk-cds-size")
     # chunk-relative codons: exactly the chromosome codons fully inside the window, shifted by -a
     T2 = mk(chunk)  # fresh object: history independence is C10's business
     o = lib.outcome(lambda: codon_pos(T2.cds.chunk_relative_codon_locations))
